@@ -293,7 +293,7 @@ def _stmt(fnode, node):
 
 
 def assembly_rules(rep, ix, cls, meth, wc, tuple_kinds, fun_kind):
-    I = Interp(ix, opaque={wc.fq, MOD + ":wfs_covariance_mpwrap"})
+    I = Interp(ix, opaque={wc.fq})          # the pool worker is inlined: a result read back in loop order is the call itself
     o = Obj(cls)
     args = [Rat.sym("threads", ("int",))] if len(meth.params) > 1 else []
     I.paths(meth, args, self_obj=o)
@@ -396,13 +396,25 @@ def assembly_rules(rep, ix, cls, meth, wc, tuple_kinds, fun_kind):
     want_args = [n_of(wi), n_of(wj), pos(wi), pos(wj), dia(wi), dia(wj),
                  Rat.atom(Fn("getitem", (Rat.sym("self.layer_r0s", ("attr",)), layer))),
                  Rat.atom(Fn("getitem", (Rat.sym("self.layer_L0s", ("attr",)), layer)))]
-    calls = [c for c in I.call_log if c[0] == meth.fq and (c[1] == "wfs_covariance" or c[1].endswith(".append"))]
+    # the arguments of the per-pair call whose result feeds the blocks (read from the block values, so that it does not
+    # matter how the argument list was built or how the results were read back)
     got_args = None
-    for c in calls:
-        if c[1] == "wfs_covariance":
-            got_args = list(c[2])
-        elif c[2] and isinstance(c[2][0], tuple) and len(c[2][0]) == 8:
-            got_args = list(c[2][0])
+    srcs = []
+    for q, (val, where, txt) in sorted(quadrants.items()):
+        srcs += [a for a in find_atoms(val, lambda a: isinstance(a, Fn) and a.name == "call:" + wc.fq)]
+    uniq = []
+    for a in srcs:
+        if not any(a == b for b in uniq):
+            uniq.append(a)
+    if len(uniq) == 1 and len(uniq[0].args) == 8:
+        got_args = list(uniq[0].args)
+    else:
+        calls = [c for c in I.call_log if c[0] == meth.fq and (c[1] == "wfs_covariance" or c[1].endswith(".append"))]
+        for c in calls:
+            if c[1] == "wfs_covariance":
+                got_args = list(c[2])
+            elif c[2] and isinstance(c[2][0], tuple) and len(c[2][0]) == 8:
+                got_args = list(c[2][0])
     if got_args is None or len(got_args) != 8:
         rep.unknown("pair-arguments", tag, "cannot find the per-pair argument list", meth.where())
     else:
